@@ -1,0 +1,9 @@
+//go:build verif
+
+package icmp
+
+// VerifSetEchoIDBase positions the process-wide echo identifier allocator
+// (verification builds only).
+func VerifSetEchoIDBase(v uint32) {
+	curEchoID.Store(v)
+}
